@@ -19,7 +19,7 @@ use zcash_client_backend::{
         locking::{LockOwner, LockRequest, LockedInputPolicy, OutputLockStore, unlock_proposal_inputs},
         testing::single_output_change_strategy,
         wallet::{
-            ConfirmationsPolicy, propose_transfer,
+            ConfirmationsPolicy, propose_send_max_transfer, propose_transfer,
             input_selection::{GreedyInputSelector, NonEmptyBTreeSet, SpendPolicy},
         },
     },
@@ -157,7 +157,7 @@ impl<'a> D<'a> {
         // amounts relative to what the wallet currently reports: tiny, a fraction, nearly everything, too much
         let bal: u64 = {
             let p = self.r.w.project(&self.r.chain);
-            ["S", "O", "I"].iter().map(|k| p["bal"][*k][0].as_u64().unwrap_or(0)).sum()
+            ["S", "O", "I"].iter().map(|k| p["bal"][0][*k][0].as_u64().unwrap_or(0)).sum()
         };
         let rng = &mut self.r.rng;
         let amount: u64 = match rng.gen_range(0..8) {
@@ -221,7 +221,7 @@ impl<'a> D<'a> {
         let prop = match &res { Ok(Ok(p)) => self.describe(p), _ => Value::Null };
         let post = self.post();
         self.r.out.emit(&json!({
-            "a": "propose", "res": class, "err": e, "amount": amount, "trusted": trusted, "untrusted": untrusted,
+            "a": "propose", "max": "no", "res": class, "err": e, "amount": amount, "trusted": trusted, "untrusted": untrusted,
             "lock": lock.map(|(o, k)| json!([o as i64, k])).unwrap_or(json!([-1, 0])), "admitted": admitted,
             "prefer_locked": lpol == 4, "p": if prop.is_null() { json!({"target": -1, "steps": []}) } else { prop }, "post": post,
         }));
@@ -234,6 +234,53 @@ impl<'a> D<'a> {
                 }
             }
         }
+    }
+
+    /// send-max proposals (both modes): the same eligibility and balance laws, no fixed amount
+    fn propose_max(&mut self) {
+        use zcash_client_backend::data_api::MaxSpendMode;
+        let rng = &mut self.r.rng;
+        let (trusted, untrusted) = *[(1u32, 1u32), (1, 3), (3, 10), (2, 5), (10, 10)].choose(rng).unwrap();
+        let everything = rng.gen_bool(0.4);
+        let lock: Option<(usize, u32)> = if rng.gen_bool(0.3) { Some((rng.gen_range(0..2), *[0u32, 2, 20].choose(rng).unwrap())) } else { None };
+        let to = zcash_keys::address::Address::Sapling(self.r.chain.foreign.sapling.default_address().1);
+        let net = self.r.w.net;
+        let acct = self.r.w.st.test_account().unwrap().id();
+        let zaddr = to.to_zcash_address(&net);
+        let st = &mut self.r.w.st;
+        let res: Result<Result<Prop, String>, String> = guarded(move || {
+            propose_send_max_transfer::<_, _, _, Infallible>(
+                st.wallet_mut(),
+                &net,
+                acct,
+                &[ShieldedPool::Sapling, ShieldedPool::Orchard],
+                &StandardFeeRule::Zip317,
+                zaddr,
+                None,
+                if everything { MaxSpendMode::Everything } else { MaxSpendMode::MaxSpendable },
+                #[cfg(not(feature = "transparent"))]
+                ConfirmationsPolicy::new_unchecked(trusted, untrusted),
+                #[cfg(feature = "transparent")]
+                ConfirmationsPolicy::new_unchecked(trusted, untrusted, false),
+                &LockedInputPolicy::Exclude,
+                lock.map(|(o, k)| LockRequest::new(owner(o), k)),
+            )
+            .map_err(|e| format!("{e:?}"))
+        });
+        let (c, e) = res_class(&res);
+        let class = if c == "err" {
+            if e.contains("InsufficientFunds") { "insufficient" } else if e.contains("InputsLocked") { "inputs-locked" } else if e.contains("ScanRequired") || e.contains("SyncRequired") { "scan-required" } else { "refused" }
+        } else {
+            c
+        };
+        let prop = match &res { Ok(Ok(p)) => self.describe(p), _ => json!({"target": -1, "steps": []}) };
+        let post = self.post();
+        self.r.out.emit(&json!({
+            "a": "propose", "max": if everything { "everything" } else { "spendable" }, "res": class, "err": e, "amount": -1,
+            "trusted": trusted, "untrusted": untrusted, "lock": lock.map(|(o, k)| json!([o as i64, k])).unwrap_or(json!([-1, 0])),
+            "admitted": Vec::<i64>::new(), "prefer_locked": false, "p": prop, "post": post,
+        }));
+        self.r.aborted |= c == "panic";
     }
 
     fn unlock_kept(&mut self) {
@@ -338,7 +385,7 @@ impl<'a> D<'a> {
                         if !self.r.scan(from, 300) { break }
                     }
                 }
-                self.propose();
+                if self.r.rng.gen_bool(0.25) { self.propose_max() } else { self.propose() }
             } else if x < 93 {
                 self.unlock_kept();
             } else if x < 96 {
